@@ -1,5 +1,5 @@
 import Driver.Util
-import SuitVerif.IHex
+import SuitVerif.IHexWrite
 open Lean SuitVerif SuitVerif.IHex
 namespace Driver.IHexOps
 
@@ -12,6 +12,9 @@ def handle (op : String) (j : Json) : Option (M Json) :=
       match read (← strField j "text") with
       | some img => pure (okJ (imageJ img))
       | none => pure (errJ "malformed")
+  | "ihex.write" => some do
+      -- the writer model (one block of data): the text `intelhex` is expected to write for it
+      pure (okJ (Json.str (writeText (← natField j "address") (← hexField j "data"))))
   | _ => none
 
 end Driver.IHexOps
